@@ -107,6 +107,7 @@ type filler struct {
 	Base2K string // a second simpler filler, tried when Base does not reproduce the violation
 	Base2  int
 	BWOK   bool // takes part in the product with the bareword decoys
+	BWQ    bool // ... also in the quick tier
 }
 
 const (
@@ -377,6 +378,13 @@ func buildFillers(catalog []string) []filler {
 			}
 		}
 	}
+	for i := range f {
+		switch f[i].Key {
+		case "path:sq:glob", "path:dq:glob", "path:dollar:glob", "path:sq-glued", "fn:read_parquet:plain", "fn:read_parquet:gap:space",
+			"fn:parquet_scan:plain", "sqltext:query-read_parquet":
+			f[i].BWQ = true
+		}
+	}
 	idx := map[string]int{}
 	for i := range f {
 		if _, dup := idx[f[i].Key]; dup {
@@ -463,6 +471,7 @@ func buildDecoys() []decoy {
 		{Name: "nested-comment-compact", C: "/*/**/*/ "},
 		{Name: "comment-from-authorised", C: "/* FROM db1.cpu */ "},
 		{Name: "comment-read_parquet", Core: true, C: "/* read_parquet */ "},
+		{Name: "cte-prefix", Core: true, C: "WITH x AS (SELECT 1) "},
 		{Name: "trailing-line-comment-quote", Core: true, Post: " --'"},
 		{Name: "trailing-open-block-comment", Post: " /* '"},
 		{Name: "trailing-semicolon", Post: ";"},
@@ -551,8 +560,7 @@ func barewords() (all []string, core map[string]bool) {
 		"ae", "aE", "au", "ax", "ab", "aU", "aX", "aB", "an", "aN", "plain"} {
 		add(w)
 	}
-	core = map[string]bool{"a$$x$$": true, "a$x": true, "a$$": true, "a$x$": true, "a$$$$": true, "a$$x$$b": true, "a1$$x$$": true, "a$1": true,
-		"aE": true, "ax": true, "plain": true}
+	core = map[string]bool{"a$$x$$": true, "a$x": true, "a$$": true, "a$$$$": true, "a$$x$$b": true, "a1$$x$$": true, "aE": true, "plain": true}
 	return all, core
 }
 
@@ -579,6 +587,9 @@ func barewordDecoys() []decoy {
 			if sl.k != "select-alias" {
 				d.AltI = "bareword:select-alias:" + w
 			}
+			if sl.k == "cte-name" {
+				d.Parts = []string{"cte-prefix"} // first: is it the WITH prefix rather than the spelling of the name?
+			}
 			if w != "a$$x$$" {
 				d.Base = "bareword:" + sl.k + ":a$$x$$"
 			}
@@ -589,6 +600,9 @@ func barewordDecoys() []decoy {
 }
 
 var headers = []string{"", "db1", "db2"}
+
+// quickTier restricts the bareword decoys to eight representative fillers (see filler.BWQ)
+var quickTier bool
 
 // ---- rendering ------------------------------------------------------------------------------------------------
 
@@ -603,7 +617,7 @@ func render(sk *skeleton, f *filler, d *decoy, hdr string) (request, bool) {
 	if (d.A != "" || d.ASet) && !strings.Contains(t, "{A}") && !(d.BW && strings.Contains(t, "{A0}")) {
 		return request{}, false
 	}
-	if d.BW && !f.BWOK {
+	if d.BW && (!f.BWOK || (quickTier && !f.BWQ)) {
 		return request{}, false
 	}
 	if sk.Get && (d.Name != "none" || hdr != "") {
